@@ -7,11 +7,12 @@ from ..runner import canon
 MODULE = "Props.C13"
 THEOREMS = ["C13_push_returns_own_value", "C13_push_index_fresh", "C13_pushes_keep_earlier", "C13_push_conserves",
             "C13_push_mut_releases_earlier", "C13_drop_releases_all", "C13_only_make_mut_releases",
-            "C13_make_mut_releases_own_chain_only", "C13_helper_values_never_released", "C13_held_references_point_at_live_values",
+            "C13_make_mut_releases_own_chain_only", "C13_mocked_mut_result_is_make_mut",
+            "C13_any_make_mut_releases_own_chain_only", "C13_helper_values_never_released", "C13_held_references_point_at_live_values",
             "C13_concurrent_pushes",
             "C13_concurrent_append_only", "C13_nonvacuous"]
 
-RULE = ("(sequential) sessions on an original, its clone and a clone of the clone: random sequences of make_ref / make_mut / lending through the "
+RULE = ("(sequential) sessions on an original, its clone and a clone of the clone: random sequences of make_ref / make_mut (directly, or through a mocked `&mut self` method with a `&mut T` / `Option<&mut T>` result answered with make_mut) / lending through the "
         "instance's delegation helper (a `&self` provided method whose body calls a required method answered with make_ref) / `&mut self` provided "
         "calls (AsMut path) / a late no_verify_in_drop(), each instance finally dropped normally, dropped while its thread unwinds from a panic, or (the original) "
         "verified explicitly; the mock also holds one borrowed-return value configured with returns(), which lives until the last instance goes; three value types "
@@ -38,7 +39,14 @@ def seq_case(rng, maxlen):
             elif r < 0.76:
                 ops.append(("h", min(ty, 1), v))
             elif r < 0.87:
-                ops.append(("m", ty, v))
+                # make_mut: directly, or (derived from the value so that the random stream stays as it was) through a mocked
+                # `&mut self` method with a `&mut` / `Option<&mut _>` result whose answer function calls make_mut
+                if ty < 2 and v % 3 == 1:
+                    ops.append(("M", ty, v))
+                elif ty == 0 and v % 3 == 2:
+                    ops.append(("Q", 0, v))
+                else:
+                    ops.append(("m", ty, v))
             elif r < 0.93:
                 ops.append((rng.choice(["t", "t", "p"]),))      # a provided method with a `&mut self` / `Pin<&mut Self>` receiver
             elif r < 0.96 and k == 0:
@@ -91,7 +99,7 @@ def coq_case(c):
             if o[0] in ("t", "p"): return "CTouch"
             if o[0] == "n": return "CNvid"
             if o[0] == "v": return "CConsume"
-            return f"{ {'r': 'CRef', 'm': 'CMut', 'h': 'CHelp'}[o[0]] } {o[1]} {o[2]}"
+            return f"{ {'r': 'CRef', 'm': 'CMut', 'h': 'CHelp', 'M': 'CMutM', 'Q': 'CMutM'}[o[0]] } {o[1]} {o[2]}"
         return "ChSeq [" + "; ".join("[" + "; ".join(op(o) for o in ops) + "]" for ops in c["sessions"]) + "]"
     return ("ChThreads [" + "; ".join("[" + "; ".join(map(str, v)) + "]" for v in c["vals"]) + "] ["
             + "; ".join(map(str, c["sched"])) + "]")
@@ -247,6 +255,9 @@ def run(tier, seed):
         dist[c["kind"] + (":all-interleavings" if c.get("_exh") else "")] += 1
         if c["kind"] == "seq":
             dist["values-lent"] += sum(len(o) for o in c["sessions"])
+            for ops in c["sessions"]:
+                for o in ops:
+                    dist["op:" + o[0]] += 1
         else:
             dist[f"threads={len(c['vals'])}"] += 1
     cov = {
